@@ -752,7 +752,7 @@ namespace xsimd
         template <class A>
         XSIMD_INLINE void transpose(batch<uint16_t, A>* matrix_begin, batch<uint16_t, A>* matrix_end, requires_arch<generic>) noexcept
         {
-            transpose(reinterpret_cast<batch<int16_t, A>*>(matrix_begin), reinterpret_cast<batch<int16_t, A>*>(matrix_end), A {});
+            detail::transpose_as<int16_t>(matrix_begin, matrix_end, A {});
         }
 
         template <class A, class = typename std::enable_if<batch<int8_t, A>::size == 16, void>::type>
@@ -842,7 +842,26 @@ namespace xsimd
         template <class A>
         XSIMD_INLINE void transpose(batch<uint8_t, A>* matrix_begin, batch<uint8_t, A>* matrix_end, requires_arch<generic>) noexcept
         {
-            transpose(reinterpret_cast<batch<int8_t, A>*>(matrix_begin), reinterpret_cast<batch<int8_t, A>*>(matrix_end), A {});
+            detail::transpose_as<int8_t>(matrix_begin, matrix_end, A {});
+        }
+
+        namespace detail
+        {
+            // The rows are converted by value: reading or writing them through a batch<U, A>* would break
+            // the aliasing rules, and optimizing compilers then drop the transposition altogether.
+            template <class U, class A, class T>
+            XSIMD_INLINE void transpose_as(batch<T, A>* matrix_begin, batch<T, A>* matrix_end, A) noexcept
+            {
+                constexpr std::size_t size = batch<T, A>::size;
+                assert((matrix_end - matrix_begin == size) && "correctly sized matrix");
+                (void)matrix_end;
+                batch<U, A> tmp[size];
+                for (std::size_t i = 0; i < size; ++i)
+                    tmp[i] = ::xsimd::bitwise_cast<U>(matrix_begin[i]);
+                transpose(tmp, tmp + size, A {});
+                for (std::size_t i = 0; i < size; ++i)
+                    matrix_begin[i] = ::xsimd::bitwise_cast<T>(tmp[i]);
+            }
         }
 
     }
